@@ -488,6 +488,27 @@ theorem formatterForName_callable (hreg xreg : List RegEntry) (d : List PStr) (i
   refine ⟨_, rfl, rfl, ?_⟩
   cases isXml <;> rfl
 
+/-- A user-built `Formatter(language, …)` with the option left at `None`: nothing is exempt exactly when the language has
+    the code points of `"xml"` — whatever object carries them; `None`, `""` and every other string give the HTML defaults. -/
+theorem language_decides_by_value (d : List PStr) (language : Option PStr) (fn : Nat) :
+    (mkFormatterLang d language fn none).cdata = if language = some (ofS "xml") then [] else d := by
+  unfold mkFormatterLang mkFormatter defaultCdata formatterLanguage
+  match language with
+  | none => simp [ofS]
+  | some [] => simp [ofS]
+  | some (c :: t) =>
+    by_cases h : c :: t = [120, 109, 108]
+    · simp [h, ofS]
+    · have : (c :: t == [120, 109, 108]) = false := by simpa using h
+      simp only [this, Bool.false_eq_true, ↓reduceIte]
+      have : ¬ (some (c :: t) = some (ofS "xml")) := by
+        intro e; apply h; have := Option.some.inj e; rw [this]; decide
+      simp [this]
+
+example : (mkFormatterLang BS.Gen.C09.htmlDefaultCdata (some (ofS "xml")) 1 none).cdata = [] ∧
+    (mkFormatterLang BS.Gen.C09.htmlDefaultCdata (some (ofS "XML")) 1 none).cdata = [ofS "script", ofS "style"] ∧
+    (mkFormatterLang BS.Gen.C09.htmlDefaultCdata (some []) 1 none).cdata = [ofS "script", ofS "style"] := by decide
+
 /-- The shipped registries: every named formatter is one of the three substitutions, with the documented exemptions. -/
 theorem named_formatters_live :
     ([ofS "minimal", ofS "html", ofS "html5", ofS "html5-4.12"].all fun nm =>
